@@ -15,9 +15,16 @@ request (blank separated):
   loader's stderr lines, and the SPEC memory is what the public format definition (`Spec/Hex.lean` `decodeIhex`) says the file
   contains (`error=hexspec` when that decoder rejects the file, `load=rejected` when the model of `CMD_HexFile` does).
 answer: `model=<ok|rejected> rc=<eq|ne> text=<eq|ne> err=<eq|ne> l1=<eq|ne> hang=<0|1> areas=<eq|ne|unparsed>
-         inside=<ok|fail> disjoint=<ok|fail> bytes=<ok|fail|na> bad=<addr|-> ncode=.. ndata=.. nbytes=.. ninstr=.. [mtext=<hex>]`
+         inside=<ok|fail> disjoint=<ok|fail> bytes=<ok|fail|na> bad=<addr|-> ncode=.. ndata=.. nbytes=.. ninstr=.. undef=<n> [mtext=<hex>]`
  * text/err/rc/areas – (B) model against the real run;  l1 – chunks.c array algorithm vs interval-set insertion
- * inside/disjoint/bytes – (C) `Spec/Dis.lean` on the areas the *real* dasl printed and the real re-assembly -/
+ * undef – number of dumped bytes the model knows to be read from memory `DisasmIterator` never wrote (`Code[]` behind the part
+   `RetrieveCodeFromChunkList` filled); the text comparison accepts any hex digits there
+
+ * inside/disjoint/bytes – (C) `Spec/Dis.lean` on the areas the *real* dasl printed and the real re-assembly
+
+`jcnfwd <cpu 0|1> <pc> <cond mask> <target> <real asl bytes hex | none>`: one `jcn <cond>,<label>` at `pc` with the label defined at
+  `target` (real asl on a source of its own) against the two passes of `I4004.encodeF`: a label defined further down is
+  first-pass-unknown with the program counter as value in pass 1.  answer `enc=<eq|ne> masm=<hex|none>` -/
 namespace Driver.C15
 open AslModel.Dis
 
@@ -83,8 +90,30 @@ def bytesOfStr (s : String) : List UInt8 := s.toList.map (fun c => UInt8.ofNat c
 
 def sameSet (a b : List Chunk) : Bool := sortChunks a == sortChunks b
 
+/-- the passes of asl for `jcn <cond>,<label>` at `pc`, label defined at `target`: a label defined further down is unknown in the
+first pass (value = program counter, flag set) and known in the next one; an error in a pass ends the assembly -/
+def jcnTwoPass (cpu pc m target : Nat) : Option (List Nat) :=
+  let memo := ['j', 'c', 'n']
+  if target > pc then
+    match I4004.encodeF true cpu pc memo [.cond m, .addr pc] with
+    | none => none
+    | some _ => I4004.encode cpu pc memo [.cond m, .addr target]
+  else I4004.encode cpu pc memo [.cond m, .addr target]
+
+def handleJcnFwd (rest : List String) : String :=
+  match rest with
+  | [cpu, pc, m, tgt, bytes] =>
+    match cpu.toNat?, pc.toNat?, m.toNat?, tgt.toNat?, (if bytes = "none" then some none else (unhex bytes).map some) with
+    | some cpu, some pc, some m, some t, some real =>
+      let enc := jcnTwoPass cpu pc m t
+      let realN : Option (List Nat) := real.map (·.map UInt8.toNat)
+      s!"enc={if enc == realN then "eq" else "ne"} masm={match enc with | some b => hex (b.map UInt8.ofNat) | none => "none"}"
+    | _, _, _, _, _ => "error=parse1"
+  | _ => "error=parse0"
+
 def handle (line : String) : String :=
   match words line with
+  | "jcnfwd" :: rest => handleJcnFwd rest
   | cpu :: lw :: rest =>
     match parseImage rest with
     | .error e => "error=" ++ e
@@ -107,7 +136,8 @@ def handle (line : String) : String :=
             let realOut := strOfBytes rso
             let realErr := strOfBytes rse
             let mErr := String.join (r.stderr.map (· ++ "\n"))
-            let textEq := r.ok && r.stdout == realOut
+            let textEq := r.ok && matchesUndef r.stdout realOut
+            let undef := (r.stdout.toList.filter (· == undefMark)).length / 2
             -- L1 (array algorithm) against L2 (interval set)
             let l1 := sameSet r.codeC ((r.areas.filter (!·.2)).map (·.1))
             -- (C) spec on the real output
@@ -131,7 +161,7 @@ def handle (line : String) : String :=
                  if Spec.disjoint ar then "ok" else "fail", by_.1, by_.2,
                  (ar.filter (!·.isData)).length, (ar.filter (·.isData)).length,
                  ar.foldl (fun s x => s + (x.last + 1 - x.first)) 0)
-            let base := s!"model={if r.ok then "ok" else "rejected"} load={if ld.ok then "ok" else "rejected"} rc={if (rrc == 0) == r.ok then "eq" else "ne"} text={if textEq then "eq" else "ne"} err={if mErr == realErr then "eq" else "ne"} l1={if l1 then "eq" else "ne"} hang={if r.hang then 1 else 0} areas={areasCmp} inside={ins} disjoint={dj} entry={entryOk} bytes={by_} bad={bad} ncode={ncode} ndata={ndata} nbytes={nbytes} ninstr={r.traced.length}"
+            let base := s!"model={if r.ok then "ok" else "rejected"} load={if ld.ok then "ok" else "rejected"} rc={if (rrc == 0) == r.ok then "eq" else "ne"} text={if textEq then "eq" else "ne"} err={if mErr == realErr then "eq" else "ne"} l1={if l1 then "eq" else "ne"} hang={if r.hang then 1 else 0} areas={areasCmp} inside={ins} disjoint={dj} entry={entryOk} bytes={by_} bad={bad} ncode={ncode} ndata={ndata} nbytes={nbytes} ninstr={r.traced.length} undef={undef}"
             if textEq && mErr == realErr then base else base ++ " mtext=" ++ hex (bytesOfStr r.stdout) ++ " merr=" ++ hex (bytesOfStr mErr)
         | _, _, _ => "error=parse3"
       | _ => "error=parse2"
